@@ -41,7 +41,7 @@ func parseTagAndLength(bytes []byte) (r tagAndLen, off int, e error) {
 	} else {
 		lenOctets := int(bytes[off] & 0x7f)
 		// fmt.Println("len", lenOctets)
-		if lenOctets > 3 {
+		if lenOctets > 4 {
 			e = fmt.Errorf("length is too large")
 			return r, off, e
 		}
